@@ -507,6 +507,9 @@ func (g *Gen) havocTargets(f *Frame, env *Env, targets []modLoc) {
 }
 
 func (g *Gen) pkgOfContract(c *Contract) *types.Package {
+	if strings.HasPrefix(c.Key, "ext.") {
+		return nil
+	}
 	rel := c.Key[:strings.Index(c.Key, ".")]
 	if strings.HasPrefix(c.Key, "..") {
 		rel = "."
@@ -546,7 +549,7 @@ func (g *Gen) preservedFormula(env *Env, pc *Clause, old, nw *State) string {
 			comp, _ := g.elemComp(sl.Elem())
 			g.nfresh++
 			q := fmt.Sprintf("pk%d", g.nfresh)
-			return fmt.Sprintf("(forall ((%[1]s Int)) (=> (and (<= 0 %[1]s) (< %[1]s (s_len %[2]s))) (= (select (select %[3]s (s_ref %[2]s)) (+ (s_off %[2]s) %[1]s)) (select (select %[4]s (s_ref %[2]s)) (+ (s_off %[2]s) %[1]s)))))",
+			return fmt.Sprintf("(forall ((%[1]s Int)) (=> (and (<= 0 %[1]s) (< %[1]s (s_len %[2]s))) (= (select (select %[3]s (s_ref %[2]s)) (eidx (s_off %[2]s) %[1]s)) (select (select %[4]s (s_ref %[2]s)) (eidx (s_off %[2]s) %[1]s)))))",
 				q, x.S, g.get(nw, comp), g.get(old, comp))
 		}
 	}
